@@ -267,3 +267,9 @@ TEXT["C07"].update(
 TEXT["C20"].update(
     level=TEXT["C20"]["level"] + " Gauges (Verus, R9 slice of DhcpService::update_metrics): the active-leases gauge is set to the count of unexpired rows and the expired-leases gauge to the count of expired rows returned by get_pool_metrics, never swapped (emission-point precondition on Gauge::set).",
     note=TEXT["C20"]["note"].replace("update_metrics gauge wiring not under contract. ", ""))
+
+TEXT["C14"].update(
+    level=TEXT["C14"]["level"] + " One record (Verus, unbounded): after the owner name the encoder writes type, class and TTL as RFC 1035 3.2.1 lays them out, an RDLENGTH equal to the number of rdata octets it wrote (for every record type; for OPT whenever the options fit 65535 octets) and opaque rdata verbatim; "
+          "the decoder reads exactly those fields at that position and, for every type without a structured form, RDLENGTH octets of data, leaving its cursor at the end of the record; lemma_record_roundtrip composes the two contracts: type, class, TTL and opaque data come back unchanged.")
+TEXT["C04"].update(
+    level=TEXT["C04"]["level"] + " Every record written carries an RDLENGTH that counts the rdata octets actually written (push_rr, all record types).")
